@@ -16,7 +16,7 @@
 From Verif Require Import Base.Prelude Base.IntCodec.
 Local Open Scope Z_scope.
 
-Definition ledger := gmap bytes Z.
+Notation ledger := (gmap bytes Z).
 Definition gbal (l : ledger) (a : bytes) : Z := default 0 (l !! a).
 
 Definition hash_len (b : bytes) : bool := (length b =? 20)%nat.
@@ -125,7 +125,8 @@ Definition kind_of (e : env) (a : bytes) : ckind :=
     by the chain ([contract.CreateMultisigAccount]) and read back:
     [alpha_addr] = [common.AlphabetAddress()] (2n/3+1 of the committee),
     [cmt_addr] = [common.CommitteeAddress()] (n/2+1 of the committee),
-    [fs_alpha_addr] = NeoFS' own [AlphabetAddress()] (2n/3+1 of its stored list).
+    [fs_alpha_addr] = NeoFS' own [AlphabetAddress()] (2n/3+1 of its stored list;
+    [[]] when that call faults because a stored key is not a curve point).
     [committee] = [neo.GetCommittee()], [ir] =
     [roles.GetDesignatedByRole(NeoFSAlphabet, height+1)], [height] =
     [ledger.CurrentIndex()], [txhash] = hash of the transaction. *)
@@ -148,6 +149,10 @@ Definition check_witness (e : env) (c : ctx) (b : bytes) : outcome bool :=
        | Some h => Halt (inb h (wit c))
        | None => Fault
        end.
+
+(** [runtime.CheckWitness(AlphabetAddress())] of NeoFS. *)
+Definition fs_alpha_witness (c : ctx) : outcome bool :=
+  if (length (fs_alpha_addr c) =? 0)%nat then Fault else Halt (inb (fs_alpha_addr c) (wit c)).
 
 (** [runtime.Notify] type check of a Hash160 parameter: Null or 20 bytes. *)
 Definition hash160_ok (b : bytes) : bool := (length b =? 0)%nat || hash_len b.
